@@ -68,7 +68,7 @@ void snoopy_message_generateFromFormat (
     char const * fmtPos_nextFormatTagClose;
     int   retVal;
 
-    dataSourceMsgBufSize = dataSourceMsgMaxLength+1;
+    dataSourceMsgBufSize = dataSourceMsgMaxLength; // All callers pass the size of the buffer (max length + 1 for the terminating null)
     dataSourceMsg = malloc(dataSourceMsgBufSize);
 
     fmtPos_cur           = logMessageFormat;
